@@ -49,6 +49,9 @@ ASSUME_COMMON = [
 ]
 
 
+PLACES = (0, 4, 1)    # PDU byte offsets from a 16-byte boundary: header start 16-aligned, 64-bit fields 8-aligned, odd address
+
+
 def reps(tier, quick, thorough):
     return thorough if tier == 'thorough' else quick
 
@@ -60,12 +63,14 @@ def c01(tier, seed):
         obs = vlib.Obs()
         b = build_fieldmon(work)
         R = reps(tier, 1500, 400000)
-        jobs = [dict(VP_MODE='read', VP_FORMATS=f, VP_REPS=R) for f in format_ids()]
-        jobs.append(dict(VP_MODE='raw', VP_FORMATS='all', VP_REPS=reps(tier, 128, 4096)))
+        jobs = [dict(VP_MODE='read', VP_FORMATS=f, VP_REPS=R if pl == 0 else max(50, R // 8), VP_PLACE=pl) for f in format_ids() for pl in PLACES]
         run_modes(obs, b, jobs, seed)
+        named = int(obs.stats.get('nontrivial', 0)) // len(PLACES)
+        run_modes(obs, b, [dict(VP_MODE='raw', VP_FORMATS='all', VP_REPS=reps(tier, 128, 4096))], seed)
+        raw = int(obs.stats.get('nontrivial', 0)) - named * len(PLACES)
         filt(obs, ['read:', 'raw:RAW:get'])
-        cov = dict(distinct_nontrivial=int(obs.stats.get('nontrivial', 0)),
-                   rule='every spec field x {generic, dedicated} path x {zero, ones, checkerboards, field-saturated, field-cleared, '
+        cov = dict(distinct_nontrivial=named + raw, named_field_paths=named, raw_descriptor_shapes=raw, placements=list(PLACES),
+                   rule='(at PDU byte offsets 0, 4 and 1 from a 16-byte boundary) every spec field x {generic, dedicated} path x {zero, ones, checkerboards, field-saturated, field-cleared, '
                         'walking-1 and walking-0 over every header bit, every value of fields up to 12 bits wide, %d random buffers}; raw reader over start quadlet '
                         '{0..7,11,30,61} x bit offset 0..31 x width 0..64.  A (field,path) or descriptor shape counts as '
                         'non-trivial when the observed results were not all equal / a write changed bytes.' % R,
@@ -82,12 +87,14 @@ def c02(tier, seed):
         obs = vlib.Obs()
         b = build_fieldmon(work)
         R = reps(tier, 1500, 400000)
-        jobs = [dict(VP_MODE='write', VP_FORMATS=f, VP_REPS=R) for f in format_ids()]
-        jobs.append(dict(VP_MODE='raw', VP_FORMATS='all', VP_REPS=reps(tier, 128, 4096)))
+        jobs = [dict(VP_MODE='write', VP_FORMATS=f, VP_REPS=R if pl == 0 else max(50, R // 8), VP_PLACE=pl) for f in format_ids() for pl in PLACES]
         run_modes(obs, b, jobs, seed)
+        named = int(obs.stats.get('nontrivial', 0)) // len(PLACES)
+        run_modes(obs, b, [dict(VP_MODE='raw', VP_FORMATS='all', VP_REPS=reps(tier, 128, 4096))], seed)
+        raw = int(obs.stats.get('nontrivial', 0)) - named * len(PLACES)
         filt(obs, ['write:', 'raw:RAW:set'])
-        cov = dict(distinct_nontrivial=int(obs.stats.get('nontrivial', 0)),
-                   rule='every spec field x {generic, dedicated} path x prior buffers {zero, ones, checkerboards, random} x 14 value '
+        cov = dict(distinct_nontrivial=named + raw, named_field_paths=named, raw_descriptor_shapes=raw, placements=list(PLACES),
+                   rule='(at PDU byte offsets 0, 4 and 1 from a 16-byte boundary) every spec field x {generic, dedicated} path x prior buffers {zero, ones, checkerboards, random} x 14 value '
                         'classes (0,1,max,msb,2^w,2^w+1,2^64-1,alternating,walking,random-fit,random-64) + every single bit of the '
                         'field set/cleared + every value of fields up to 12 bits wide (plain and with garbage above the width) + %d random (buffer,value) pairs; whole 8 KiB arena compared with the model after each '
                         'write, then read back.  Non-trivial: the write changed at least one bit.' % R,
@@ -147,7 +154,7 @@ def c05(tier, seed):
         obs = vlib.Obs()
         b = build_fieldmon(work)
         E = reps(tier, 400, 120000)
-        run_modes(obs, b, [dict(VP_MODE='history', VP_FORMATS=f, VP_EPISODES=E) for f in format_ids()], seed)
+        run_modes(obs, b, [dict(VP_MODE='history', VP_FORMATS=f, VP_EPISODES=E if pl == 0 else max(20, E // 8), VP_PLACE=pl) for f in format_ids() for pl in PLACES], seed)
         filt(obs, ['history:'])
         cov = dict(distinct_nontrivial=int(obs.stats.get('history.distinct_histories', 0)),
                    episodes=int(obs.stats.get('history.episodes', 0)), history_ops=int(obs.stats.get('history.ops', 0)),
@@ -227,4 +234,6 @@ def c17(tier, seed):
         work.cleanup()
 
 
+BUILDERS = {'fieldmon_asan': lambda work: build_fieldmon(work, 'asan'), 'fieldmon_gcc_O0': lambda work: build_fieldmon(work, 'gcc-O0'),
+            'fieldmon_gcc_O2': lambda work: build_fieldmon(work, 'gcc-O2'), 'fieldmon_clang_O2': lambda work: build_fieldmon(work, 'clang-O2')}
 CHECKS = dict(C01=c01, C02=c02, C03=c03, C04=c04, C05=c05, C11=c11, C12=c12, C17=c17)
